@@ -128,9 +128,17 @@ MSG_ASSUME = [
 
 
 def register(PROPS):
+    def cmp_c02(case, go, m, s):
+        # clone families (FAM): messages built by Clone + appends must encode to their own history too —
+        # "no string ... can leak into a neighbouring message" covers messages that share a backing array
+        if case.startswith("FAM "):
+            return go == m, go == s
+        return cmp_enc(case, go, m, s)
+
     PROPS["C02"] = {
-        "gens": [{"id": "C02", "quick": 30000, "thorough": 1200000, "thorough_seeds": 12}],
-        "compare": cmp_enc,
+        "gens": [{"id": "C02", "quick": 30000, "thorough": 1200000, "thorough_seeds": 12},
+                 {"id": "C19", "quick": 6000, "thorough": 200000, "thorough_seeds": 8}],
+        "compare": cmp_c02,
         "shrink_candidates": shrink_msgs,
         "nontrivial": lambda c, g: not g.startswith("- |"),
         "rule": "1-4 (sometimes up to 12) messages, each built by 0-6 random AppendData/AppendComment/NewID/NewType/Retry ops; "
